@@ -63,6 +63,9 @@ func c12Class(c *engine.C, idx int) (*jg.Class, []expApi) {
 		pk := c12ParamKinds[c.Choose(len(c12ParamKinds), fmt.Sprintf("%sm%d-params", pfx, i))]
 		m := &jg.Method{Mods: []string{"public"}, Ret: "String", Name: fmt.Sprintf("h%d%d", idx, i), Body: []jg.Stmt{jg.St(jg.T("return \"v\";"))}}
 		path := fmt.Sprintf("/p%d", i)
+		if c.Bool(fmt.Sprintf("%sm%d-path-with-a-regex-variable", pfx, i)) {
+			path = fmt.Sprintf("/p%d/{id:[0-9]+}", i) // characters special to other layers: + [ ] { } :
+		}
 		q := "\"" + path + "\""
 		e := expApi{Pkg: "web", Class: name, Method: m.Name}
 		isHandler := true
